@@ -1,4 +1,5 @@
 """Common shape of the properties decided on Session traces (P1 model, P2 replay, P3 recorded executions)."""
+import json
 import framework, sessionprop, mcreplay, gen
 from props.common import relevant
 
@@ -45,3 +46,33 @@ def run_property(ctx, prop, rule, p1_cfgs, session_iter, level='model_checking',
     sessionprop.run_sessions(ctx, rep, session_iter(rep), relevant(prop), classify=classify)
     rep.assumptions = list(ASSUME)
     return rep
+
+
+def process_batch(ctx, rep, owned, n, salt, cmds_after=6, **kw):
+    """the property at the level of the real process (file mode): generated sessions - lines, end of input, commands typed at
+    the prompt - run by main.py as a subprocess and compared line for line with the in-process run of the same session
+    (which TLC validates against Session).  `owned`: the kinds of output line this property speaks about; a difference is
+    reported when the first differing line is of such a kind."""
+    import e2
+    for k in range(n):
+        opts = dict(nconn=(1, 3), nmsg=(10, 30), junk=0.1, cmds=0.0, core=None, unresolved=0.05, titles=0.1, with_init_filter=0.3)
+        opts.update(kw)
+        g = gen.SessionGen(ctx.seed * salt + k, **opts)
+        s = g.session()
+        mg = gen.MatcherGen(g.r, 1)
+        for e in s['events']:
+            if e['in']['e'] == 'msg':
+                mg.learn(e['in'], [1, 2, 3])
+        s['events'] = [e for e in s['events'] if e['in']['e'] in ('msg', 'junk')] + [{'in': {'e': 'eof'}}]
+        for _ in range(cmds_after):
+            c = mg.command(3)
+            if c['c'] in ('quit', 'resume'):
+                continue
+            s['events'].append({'in': c})
+        render = {'dialect': ctx.rnd.choice(['old', 'new'])}
+        rep.case('process:' + json.dumps(sessionprop.inputs_only(s), sort_keys=True))
+        d = e2.compare(s, render)
+        if d is not None and (d[0] & set(owned) or 'crash' in d[0]):
+            rep.violation('process:' + ','.join(sorted(d[0])), 'as a real process (main.py -l, commands on stdin): ' + d[1],
+                          {'kind': 'process-session', 'trace': sessionprop.inputs_only(s), 'render': render})
+    rep.extra['process_sessions'] = rep.extra.get('process_sessions', 0) + n
